@@ -12,6 +12,17 @@
 (*   always    per callable: invocation count, live instances, destructions; no live        *)
 (*             moved-from husk; blocks outstanding per small-buffer class; heap blocks       *)
 (*             (malloc/free observed through --wrap) outstanding for classes > 256           *)
+(*   storage owned until destruction ends (Call / Cleanup: "invoke, destroy, release the    *)
+(*             storage" - the release is the last thing the step does): the blocks          *)
+(*             outstanding per class / on the heap sampled INSIDE operator() (iout, ilout)   *)
+(*             and at the very end of the callable's destructor (dout, dlout) are those of   *)
+(*             the step's PRE-state (the callable's own block is still taken); a re-entrant  *)
+(*             payload (re = 1, 2: operator() and the destructor create and consume a nested *)
+(*             OnceFunction with a callable of the same sizeof/alignof, i.e. the same class  *)
+(*             on the same thread cache) never sees the nested callable constructed on top   *)
+(*             of itself (nover), the nested callables are intact (nbad), invoked iff        *)
+(*             re = 1, destroyed exactly once each and none is left alive; "intact" is       *)
+(*             evaluated by the driver as the last statement of the destructor               *)
 (* All invariants of OnceFn.tla are evaluated in every state.                               *)
 EXTENDS OnceFn, Json, IOUtils
 
@@ -55,6 +66,21 @@ CreateOK(ev) ==
   /\ ev.kind = KindOf(ev.size, ev.align)
   /\ ev.amod = 0
   /\ (ev.kind = "spill" => ev.m512 % Min2(ClassOf(ev.size, ev.align), 512) = 0)
+  /\ ev.re \in 0 .. 2
+
+\* The storage is released after the callable was invoked AND destroyed, never before: whatever is
+\* observed from inside the callable's operator() and at the end of its destructor is the pre-state of the
+\* Call / Cleanup step (out, large unprimed: the callable's block is still taken).  Blocks taken and given
+\* back in between (the nested OnceFunctions of a re-entrant payload) are balanced and disjoint from it.
+OwnedToTheEnd(ev) ==
+  LET nested == IF ev.re = 0 THEN 0 ELSE IF ev.e = "Call" THEN 2 ELSE 1 IN   \* one per operator() / destructor
+  /\ ev.e = "Call" => /\ \A k \in 1 .. 7 : ev.iout[k] = out[k]
+                      /\ ev.ilout = large
+  /\ \A k \in 1 .. 7 : ev.dout[k] = out[k]
+  /\ ev.dlout = large
+  /\ ev.nover = 0 /\ ev.nbad = 0 /\ ev.nlive = 0
+  /\ ev.ndtor = nested
+  /\ ev.ninv = (IF ev.re = 1 THEN nested ELSE 0)
 
 ConsumeOK(ev) ==
   LET c == reg[ev.t].c
@@ -63,6 +89,7 @@ ConsumeOK(ev) ==
      /\ ev.intact = 1
      /\ ev.where = (IF cal[c].kind = "inline" THEN "reg" ELSE "same")
      /\ \A k \in 1 .. 7 : ev.topeq[k] = (IF small /\ OrdOf(cal[c].cls) = k THEN 1 ELSE 0)
+     /\ OwnedToTheEnd(ev)
 
 TraceStep ==
   /\ l <= Len(TraceLog)
